@@ -39,6 +39,7 @@ type Run struct {
 	caseOps []string
 	Viol    int
 	seen    map[string]struct{}
+	lastOOG int64
 }
 
 func env(k, d string) string {
@@ -107,6 +108,15 @@ func (r *Run) Case(id string, attrs ...string) {
 
 // Op records one operation line (input of the model) and the implementation's observation line.
 func (r *Run) Op(opLine, obs string) {
+	if n := chainx.OutOfGas; n != r.lastOOG {
+		// a transaction of this case ran out of the system fee the harness chose: the case is listed and not judged
+		r.lastOOG = n
+		r.Stats["resource.out-of-gas"]++
+		if f, err := os.OpenFile(filepath.Join(r.OutDir, "resource_limited.txt"), os.O_APPEND|os.O_CREATE|os.O_WRONLY, 0o644); err == nil {
+			fmt.Fprintln(f, r.curCase)
+			f.Close()
+		}
+	}
 	fmt.Fprintln(r.ops, opLine)
 	fmt.Fprintln(r.impl, obs)
 	r.caseOps = append(r.caseOps, opLine)
